@@ -219,6 +219,28 @@ def run(prog, chk):
     # the name written is derived from the very name used to pick the hash; the name read is the one used to pick the hash
     sidx = sk["algorithm"].func.slice if ok else None
     vidx = vk["algorithm"].func.slice if ok else None
+    # the hash that goes with a curve (RFC 5656 s6.2.1: b <= 256 -> SHA-256, 256 < b <= 384 -> SHA-384, else SHA-512),
+    # evaluated from _ECDSACurve.__init__ over the threshold grid; a key that signs and verifies with another hash is
+    # consistent with itself and with nobody else
+    from ..core.interp import Interp, Obj, Refuse
+    ci = prog.func("_ECDSACurve.__init__")
+    cps = ci.params()
+    badh = None
+    nh = 0
+    for bits in (160, 255, 256, 257, 383, 384, 385, 512, 521):
+        want = "SHA256" if bits <= 256 else ("SHA384" if bits <= 384 else "SHA512")
+        selfo = Obj()
+        it = Interp(intrinsics={"hashes": Obj(SHA256="SHA256", SHA384="SHA384", SHA512="SHA512", SHA1="SHA1", SHA224="SHA224")}, arith=False)
+        try:
+            kind, val = it.call_function(ci.node, {cps[0]: selfo, cps[1]: Obj(key_size=bits), cps[2]: "nistpX"})
+        except Refuse as e:
+            raise AnalysisError("_ECDSACurve.__init__", "not evaluable: %s" % (e,))
+        nh += 1
+        got = getattr(selfo, "hash_object", None)
+        if (kind != "return" or got != want) and badh is None:
+            badh = "key size %d: %s, hash %r (RFC 5656 wants %s)" % (bits, kind, got, want)
+    chk.ob("R3.ecdsa-hash-follows-curve-size", "_ECDSACurve.__init__", badh is None, ci.loc,
+           "%d key sizes evaluated%s" % (nh, "" if badh is None else "; first failing: " + badh))
     adds = [c for c in walk_no_defs(s.node) if M.is_call(c, attr="add_string")]
     first = unparse(adds[0].args[0]) if adds else ""
     chk.ob("R3.rsa-emits-name-of-hash-used", "RSAKey", ok and first == "%s.replace('%s', '')" % (unparse(sidx), CERT_SUFFIX), s.loc,
